@@ -17,7 +17,7 @@ def run(ctx, deep=False):
     ctx.coverage["rule"] = (
         "fault scripts of depth 1..6 over {refuse, accept with latency, peer EOF, peer reset, garbage, bad CRC, truncated frame, "
         "write error on the next write, blocked drain, unencodable message (struct.error / NotImplementedError / AttributeError), "
-        "raising subscriber, reset_connection()} with random timings against sends and the 2 s retry delay, plus outages of 20 min (thorough: 90 min) of refused attempts; each script ends with "
+        "raising subscriber, reset_connection()} with random timings against sends and the 2 s retry delay, plus outages of 20 min (thorough: also 30 min) of refused attempts; each script ends with "
         "the network behaving again, a probe status frame from the peer and a probe command. Monitors: at most one open transport "
         "at every instant, no leaked transport at the end, probe delivered and probe command written. Every run replayed against "
         "the Lean model. non-trivial = contains at least one fault")
@@ -34,8 +34,8 @@ def run(ctx, deep=False):
                 long_run += [("peer", "eof"), ("adv", 8)]
         long_run += [("adv", 8), ("heal",)]
         items.append(("faults", long_run))
-        # an outage of twenty minutes / an hour and a half (600 / 2700 refused attempts in a row), then the console is back
-        for outage in ((9600,) if not thorough else (9600, 43200)):
+        # an outage of twenty / thirty minutes (600 / 900 refused attempts in a row), then the console is back
+        for outage in ((9600,) if not thorough else (9600, 14400)):        # (the trace monitors are quadratic in the length of a run)
             items.append(("faults", [("net", "refuse"), ("open",), ("adv", 4), ("send", 1, "ok", "idem"), ("adv", outage), ("heal",)]))
             items.append(("faults", [("net", "accept"), ("open",), ("adv", 8), ("net", "refuse"), ("peer", "eof"), ("adv", outage), ("heal",)]))
         good = sockcheck.judge_family(ctx, "C07", items, MONITORS, gen=gen, nontrivial=_nontrivial)
